@@ -165,6 +165,18 @@ func (fe *FuncEnc) oblige1(st *State, kind, label, goal string, pos token.Pos, d
 			return
 		}
 	}
+	if c := fe.root().c; c != nil && c.NoSafetyKinds[kind] {
+		fe.assume(st, goal)
+		return
+	}
+	if c := fe.root().c; c != nil && kind == "pre" {
+		for _, sub := range c.AssumePreOf {
+			if strings.Contains(label, sub) {
+				fe.assume(st, goal)
+				return
+			}
+		}
+	}
 	if c := fe.root().c; c != nil && c.AssumePre && kind == "pre" {
 		fe.assume(st, goal)
 		return
